@@ -125,12 +125,28 @@ class _GB:
         self.nconds = 0
 
     def node(self, **kw):
-        n = {"name": f"{self.g}n{len(self.nodes)}", "children": [], "conditional": False,
+        self.counter = getattr(self, "counter", -1) + 1
+        n = {"name": f"{self.g}n{self.counter}", "children": [], "conditional": False,
              "terminal": False, "probability": 1.0, "in_branch": kw.pop("in_branch", False)}
         n.update(kw)
         self.nodes.append(n)
         self.budget -= 1
         return n
+
+    def _arm_nodes(self, entry):
+        """all nodes of a single-entry block (reachable from its entry through the links made so far)"""
+        byname = {n["name"]: n for n in self.nodes}
+        out, stack, seen = [], [entry], set()
+        while stack:
+            n = stack.pop()
+            if n["name"] in seen:
+                continue
+            seen.add(n["name"])
+            out.append(n)
+            for c in n["children"]:
+                if c in byname:
+                    stack.append(byname[c])
+        return out
 
     def link(self, a, b):
         if b["name"] not in a["children"]:
@@ -180,7 +196,21 @@ class _GB:
         for i in range(nb):
             arms.append(self.block(depth + 1, True))
         t = self.node(terminal=True, in_branch=in_branch)
-        for (a_in, a_out), p in zip(arms, probs):
+        empty = None
+        if r.random() < self.opts.get("p_empty_branch", 0.0) and len(arms) >= 2:
+            # "if ... then <branch> (else nothing)": one arm is empty, the conditional points straight at
+            # its join, which then carries that arm's probability
+            empty = r.randrange(len(arms))
+        for i, ((a_in, a_out), p) in enumerate(zip(arms, probs)):
+            if i == empty:
+                # the generated arm stays in the graph as an ordinary successor-less side chain? no: drop it
+                for n_ in self._arm_nodes(a_in):
+                    self.nodes.remove(n_)
+                    self.budget += 1
+                t["probability"] = p
+                self.link(c, t)
+                self.empty_branches = getattr(self, "empty_branches", 0) + 1
+                continue
             a_in["probability"] = p
             self.link(c, a_in)
             self.link(a_out, t)
